@@ -64,6 +64,9 @@ func init() {
 		s2Rule, 150, 6000, map[string]int64{"overlapping_proposal_pairs": 200, "proposal_pushes_observed": 300, "merges_observed": 300},
 		func(c *fw.Case) *engine.Profile {
 			p := &engine.Profile{Targets: two, MinOps: 5, MaxOps: 12, PMulti: 30, PPoison: 10, PEq: 5, PDevReject: 8, PDelete: 25, PRollback: 8, PEnv: 20, PNoWait: 85, PSync: 10, PStartOffline: 35, PDevFault: 15, Paths: "rich"}
+			if c.Index%2 == 1 {
+				p.PStoreFault = 15
+			}
 			if c.Index%3 == 0 {
 				p.Targets = []string{"t1"}
 				p.Paths = "basic"
@@ -83,7 +86,11 @@ func init() {
 	s2Check("C09", "exploration", "runtime monitoring: stability detection + fixed-point pass (re-reconcile every object with fresh reconcilers) on the real controllers under schedule perturbation",
 		s2Rule, 200, 8000, map[string]int64{"fixed_point_passes": 120, "executions_reaching_final_state": 120},
 		func(c *fw.Case) *engine.Profile {
-			return &engine.Profile{Targets: two, MinOps: 4, MaxOps: 11, PMulti: 35, PPoison: 20, PEq: 10, PDevReject: 10, PDelete: 25, PRollback: 18, PEnv: 25, PNoWait: 60, PSync: 20, PStartOffline: 40, PDevFault: 12, Paths: "rich"}
+			p := &engine.Profile{Targets: two, MinOps: 4, MaxOps: 11, PMulti: 35, PPoison: 20, PEq: 10, PDevReject: 10, PDelete: 25, PRollback: 18, PEnv: 25, PNoWait: 60, PSync: 20, PStartOffline: 40, PDevFault: 12, Paths: "rich"}
+			if c.Index%2 == 1 {
+				p.PStoreFault = 12
+			}
+			return p
 		})
 	s2Check("C10", "fault_enumeration", "runtime monitoring: online mastership monitor (terms, master changes, election id and connection of every device request against the configuration version its task read, re-sync gate)",
 		s2Rule, 150, 6000, map[string]int64{"mastership_changes": 300, "device_requests_checked": 500},
@@ -98,6 +105,9 @@ func init() {
 		func(c *fw.Case) *engine.Profile {
 			p := &engine.Profile{Targets: two, MinOps: 4, MaxOps: 9, PMulti: 35, PPoison: 5, PEq: 3, PDevReject: 35, PDelete: 20, PRollback: 8, PEnv: 10, PNoWait: 40, PSync: 40, PStartOffline: 15, PDevFault: 40, Paths: "basic"}
 			p.RejectCode = refusals[c.Index%len(refusals)]
+			if c.Index%3 == 1 {
+				p.PStoreFault = 15
+			}
 			c.Distinct("refusal_code", fmt.Sprint(p.RejectCode))
 			return p
 		})
